@@ -182,8 +182,11 @@ def marker_writers(res: CheckResult, prog: Program, marker: str):
                 res.add('MARKER-WRITER', fi.short, f'use of the literal {marker!r}', par_ok,
                         '' if par_ok else f'{fi.short} mentions the completion marker: only RunningOrderEnd.merge may write it and __add__/completed read it',
                         fi.file, c.lineno)
-    res.add('MARKER-WRITER', 'package', f'the literal {marker!r} appears in the writer and both readers', n >= 3,
-            '' if n >= 3 else f'the marker literal read by __add__ ({marker!r}) is used only {n} times: writer and readers no longer agree')
+    writer = prog.func('RunningOrderEnd.merge')
+    has_writer = any(isinstance(c, ast.Constant) and c.value == marker for c in ast.walk(writer.node))
+    res.add('MARKER-WRITER', writer.short, f'writes the literal {marker!r} that the completion guard reads', has_writer,
+            '' if has_writer else f'the completion guard reads {marker!r} but RunningOrderEnd.merge does not write that literal: writer and reader disagree',
+            writer.file, writer.node.lineno)
 
 
 def detect_completed(res: CheckResult, prog: Program):
